@@ -408,7 +408,16 @@ def _r15d(rep, cls, methods):
         if ok and stored and p not in ("supercell_matrix", "primitive_matrix", "log_level"):
             ok = val in stored
         rep.instance("R15d", API, "Phonopy._copy", f"{p}={val}", ok, f"copy() does not forward constructor parameter '{p}' (stored as {stored}): the copy is configured differently from the original", line=calls[0].lineno)
-    rep.instance("R15d", API, "Phonopy.__init__", "self._unitcell = unitcell.copy()", any(core.src(s) == "self._unitcell = unitcell.copy()" for s in ast.walk(init)), "the caller's unit cell object is stored by reference", line=init.lineno)
+    # the constructor keeps a private copy of the caller's cell: every store into self._unitcell has a freshly built object on the right
+    stores = [s for s in ast.walk(init) if isinstance(s, ast.Assign) and core.src(s.targets[0]) == "self._unitcell"]
+    if not stores:
+        raise AnalysisError("R15d: Phonopy.__init__ no longer stores self._unitcell")
+    params = {a.arg for a in init.args.args}
+    for st in stores:
+        v = st.value
+        fresh = isinstance(v, ast.Call) and not (isinstance(v.func, ast.Name) and v.func.id in ("np.asarray",))
+        alias = isinstance(v, (ast.Name, ast.Attribute)) and (core.src(v).split(".")[0] in params)
+        rep.instance("R15d", API, "Phonopy.__init__", core.src(st), fresh and not alias, "the caller's unit cell object is stored by reference: the masses setter then mutates the caller's cell, and copies / objects built from the same cell share it", line=st.lineno)
 
 
 def _r15e(rep):
